@@ -101,54 +101,14 @@ theorem ns_invF : ∀ (ts : List Tree) (s : NsSt) (m : NsMap) (rest : List NsMap
     rw [g4, h4, List.append_assoc]
 end
 
-/- The pinned eager loop on trees where it does not lose a pop. -/
-mutual
-theorem ns_inv_eager : ∀ (t : Tree) (s : NsSt) (m : NsMap) (rest : List NsMap),
-    eagerSafe t = true → s.fail = false → s.pending = [] → eff s = m :: rest →
-    NsPost s (nsRun false s (events t)) m rest (inScope m t) ∧ (nsRun false s (events t)).endNs = tailFlag t
-  | .node i tg ds cs, s, m, rest, hs, hf, hp, he => by
-    simp only [eagerSafe, Bool.and_eq_true] at hs
-    obtain ⟨hs1, hs2⟩ := hs
-    simp only [events, nsRun_append, nsRun_startNs, nsRun_cons, nsRun_nil, nsStep, nsRun_endNs]
-    have hpop := popIf_spec { s with pending := s.pending ++ ds } m rest hf (by simpa [eff] using he)
-    rw [hpop]
-    cases ds with
-    | nil =>
-      simp only [hp, List.append_nil, pushRecord, List.isEmpty_nil, if_true]
-      have h := ns_inv_eagerF cs { s with stack := m :: rest, endNs := false, pending := [], out := s.out ++ [(i, m)] }
-        m rest hs2 hf rfl (by simp [eff])
-      obtain ⟨⟨h1, h2, h3, h4⟩, h5⟩ := h
-      simp only [Bool.false_eq_true, if_false, inScope, updAll, List.foldl_nil, tailFlag, List.isEmpty_nil,
-        Bool.not_true, Bool.false_or]
-      refine ⟨⟨h1, h2, h3, ?_⟩, h5⟩
-      simp [h4, List.append_assoc]
-    | cons d0 ds0 =>
-      simp only [hp, List.nil_append, pushRecord, List.isEmpty_cons, Bool.false_eq_true, if_false]
-      have h := ns_inv_eagerF cs { s with stack := updAll m (d0 :: ds0) :: m :: rest, endNs := false, pending := [], out := s.out ++ [(i, updAll m (d0 :: ds0))] }
-        (updAll m (d0 :: ds0)) (m :: rest) hs2 hf rfl (by simp [eff])
-      obtain ⟨⟨h1, h2, h3, h4⟩, h5⟩ := h
-      have hflag : tailFlagF false cs = false := by simpa using hs1
-      rw [hflag] at h5
-      have hstack : (nsRun false { s with stack := updAll m (d0 :: ds0) :: m :: rest, endNs := false, pending := [], out := s.out ++ [(i, updAll m (d0 :: ds0))] } (eventsF cs)).stack = updAll m (d0 :: ds0) :: m :: rest := by
-        simpa [eff, h5] using h3
-      simp only [inScope, tailFlag, List.isEmpty_cons, Bool.not_false, Bool.true_or]
-      refine ⟨⟨h1, h2, by simp [eff, hstack], ?_⟩, trivial⟩
-      simp [h4, List.append_assoc]
-theorem ns_inv_eagerF : ∀ (ts : List Tree) (s : NsSt) (m : NsMap) (rest : List NsMap),
-    eagerSafeF ts = true → s.fail = false → s.pending = [] → eff s = m :: rest →
-    NsPost s (nsRun false s (eventsF ts)) m rest (inScopeF m ts) ∧
-      (nsRun false s (eventsF ts)).endNs = tailFlagF s.endNs ts
-  | [], s, m, rest, _, hf, hp, he => by
-    simp [NsPost, eventsF, nsRun_nil, inScopeF, hf, hp, he, tailFlagF]
-  | t :: ts, s, m, rest, hs, hf, hp, he => by
-    simp only [eagerSafeF, Bool.and_eq_true] at hs
-    simp only [eventsF, nsRun_append, inScopeF, tailFlagF]
-    obtain ⟨⟨h1, h2, h3, h4⟩, h5⟩ := ns_inv_eager t s m rest hs.1 hf hp he
-    obtain ⟨⟨g1, g2, g3, g4⟩, g5⟩ := ns_inv_eagerF ts _ m rest hs.2 h1 h2 h3
-    refine ⟨⟨g1, g2, g3, ?_⟩, ?_⟩
-    · rw [g4, h4, List.append_assoc]
-    · rw [g5, h5]
-end
+/-- the eager loop does the same bookkeeping as the lazy loop, event by event -/
+theorem parseStep_eq (s : NsSt) (e : Ev) : parseStep s e = nsStep true s e := by
+  cases e <;> rfl
+
+theorem parseRun_eq (evs : List Ev) (s : NsSt) : evs.foldl parseStep s = nsRun true s evs := by
+  induction evs generalizing s with
+  | nil => rfl
+  | cons e evs ih => simp only [List.foldl_cons, nsRun_cons, parseStep_eq]; exact ih _
 
 /-! ### iteration loops -/
 
